@@ -432,6 +432,9 @@ func vfC01TReplayWalk(t *testing.T, res *vfh.Result, w *vfh.Walk, keys map[strin
 				} else {
 					res.Inc("T.accepted."+map[string]string{"client": "server", "server": "client"}[cur.Mal], 1)
 				}
+				if w.Walk%211 == 0 {
+					res.Sample(map[string]any{"malicious": cur.Mal, "honest side expects": cur.Exp, "certificate": cur.Cert.String(), "keys": tm + "/" + tv + "/" + th, "honest side error": fmt.Sprint(hr.err)})
+				}
 				// a refused client learns of it at its first Read
 				if cur.Mal == "client" && mr.err == nil && mr.did && (mr.read == nil) != (hr.err == nil) {
 					c.mismatch("L2:first-read", "the client's first Read does not reflect the server's verdict", hr.err == nil, got)
@@ -645,9 +648,10 @@ func TestVerifC01TLSReplay(t *testing.T) {
 		w := &walks[i]
 		rnd := mrand.New(mrand.NewSource(seed*104729 + int64(i)))
 		// the attacker's identity key type decides which Verify runs on its extension; the victim's which
-		// one runs on the victim's: all four of each over the walks, all sixteen pairs in the thorough tier
+		// one runs on the victim's: all four of each over the walks, all sixteen pairs in the thorough tier (for
+		// behaviours with at most two mutations)
 		for a, tm := range T {
-			if vfh.Thorough() {
+			if vfh.Thorough() && len(w.Steps) <= 3 {
 				for _, tv := range T {
 					jobs = append(jobs, job{w, tm, tv, T[rnd.Intn(4)], a + i})
 				}
